@@ -64,9 +64,10 @@ def secPlan (log : List Event) (g : Graph) (p : PlanInput) (env : Env) : Except 
     let title := p.title.getD ""
     let now := env.now
     let epicEv := Event.newItem true epicId (env.uuids.headD "") "" .todo title (p.body.getD "") (some now)
-    let rows := (p.tasks.zip taskIds).zip ((env.times.tail.zip env.uuids.tail))
-    let taskEvs := rows.map fun ((t, id), (tm, uu)) =>
-      Event.newItem false id uu epicId .todo (t.title.getD "") (t.body.getD "") (some tm)
+    -- task i takes the (i+1)-th clock reading and uuid of the environment (missing ones default, they are never dropped)
+    let taskEvs := (p.tasks.zip taskIds).zipIdx.map fun ((t, id), i) =>
+      Event.newItem false id (env.uuids.getD (i + 1) "") epicId .todo (t.title.getD "") (t.body.getD "")
+        (some (env.times.getD (i + 1) now))
     -- later duplicates overwrite earlier ones in titleToID
     let t2i := ((p.tasks.zip taskIds).map fun (t, id) => (t.title.getD "", id)).reverse
     match planLinks g t2i ((p.tasks.zip taskIds).map fun (t, id) => ((t2i.lookup (t.title.getD "")).getD id, t.after)) [] with
